@@ -21,7 +21,7 @@ CMD = {
     'array_remove': 'collections::array_remove', 'array_clear': 'collections::array_clear', 'array_length': 'collections::array_length',
     'map_put': 'collections::map_put', 'map_get': 'collections::map_get', 'map_remove': 'collections::map_remove', 'map_size': 'collections::map_size', 'map_clear': 'collections::map_clear',
     'set_put': 'collections::set_put', 'set_remove': 'collections::set_remove', 'set_contains': 'collections::set_contains', 'set_size': 'collections::set_size', 'set_clear': 'collections::set_clear',
-    'is_array': 'collections::is_array', 'is_map': 'collections::is_map', 'is_set': 'collections::is_set', 'release': 'release',
+    'is_array': 'collections::is_array', 'is_map': 'collections::is_map', 'is_set': 'collections::is_set', 'release': 'release', 'release -r': 'release',
 }
 KIND_OF = {'array': 'List', 'map': 'SubState', 'set': 'Set'}
 
@@ -102,7 +102,7 @@ def job_command(ctx, jr, cmd, vcap):
     jr.bounds = dict(command=cmd, live_handles='0..3 of symbolic kind (all 13 StateValue variants)', collection_sizes='<= 2', value_chars=vcap,
                      handle_argument='live / unknown / not a handle', index='<= 2 chars over digits and junk')
     vs = variants(ctx)
-    e = ctx.engine(unwind=10, max_rec=4); e.int_digits = 2
+    e = ctx.engine(unwind=10, max_rec=5); e.int_digits = 2
     e.hooks['utils::state::put_handle'] = hook_put_handle
     t0 = time.time()
     present = [e.fresh_bool('h%d.present' % i) for i in range(3)]
@@ -119,17 +119,22 @@ def job_command(ctx, jr, cmd, vcap):
     args = {'array_push': [harg, v1, v2], 'array_pop': [harg], 'array_get': [harg, idx], 'array_set': [harg, idx, v1], 'array_remove': [harg, idx], 'array_clear': [harg],
             'array_length': [harg], 'map_put': [harg, v1, v2], 'map_get': [harg, v1], 'map_remove': [harg, v1], 'map_size': [harg], 'map_clear': [harg],
             'set_put': [harg, v1, v2], 'set_remove': [harg, v1], 'set_contains': [harg, v1], 'set_size': [harg], 'set_clear': [harg],
-            'is_array': [harg], 'is_map': [harg], 'is_set': [harg], 'release': [harg]}[cmd]
+            'is_array': [harg], 'is_map': [harg], 'is_set': [harg], 'release': [harg], 'release -r': [mk_str('-r'), harg]}[cmd]
     ctxv, st = invocation_context(e, V(len(args), args))
     st.m[(0, 'state')] = state
     rs, rv = run_command(e, 'sdk::std::%s::CommandImpl' % CMD[cmd], ctxv, st)
     jr.symex_time = time.time() - t0
+    if cmd == 'release -r':
+        # every recursive step removes a handle first, so with <= 3 live handles a recursion deeper than 4 means it does not terminate on a cyclic handle graph
+        for o in e.obligations:
+            if o.kind == 'unwind' and 'recursion bound' in o.msg: o.kind = 'panic'; o.msg = 'recursive release revisits a handle: unbounded recursion (stack overflow) on a cyclic handle graph'
     if rs is None: raise Abort('%s never returns' % cmd)
     # ---- post table
     post_state = e.read(rs, ('mem', 0, 'state', []))
     pf, psub, _ = map_lookup(e, rs, post_state, mk_str('handles'))
     post_table = psub.p[SUB][0] if isinstance(psub, E) and SUB in psub.p else M([])
     fam = cmd.split('_')[0] if cmd.split('_')[0] in KIND_OF else None
+    if cmd == 'release -r': tgt_arg = 1
     want = vs.index(KIND_OF[fam]) if fam else None
     # which live slot does the handle argument name?
     tgt = [zand(present[i], zeq(hi, i)) for i in range(3)]
@@ -218,6 +223,11 @@ def job_command(ctx, jr, cmd, vcap):
                 f2, _, _ = map_lookup(e, rs, pc, x); checks.append(('set_put adds the value', zimp(match, zand(zeq(rv.d, CONT), f2))))
             for p, k_, v_ in C.ents:
                 f3, _, _ = map_lookup(e, rs, pc, k_); checks.append(('set_put keeps the members', zimp(zand(match, p), f3)))
+    if cmd == 'release -r':
+        checks = [('release -r answers whether the handle was live', zand(zeq(rv.d, CONT), str_eq(outv(), merge(live, mk_str('true'), mk_str('false')))))]
+        for i in range(3):
+            f, _, _ = map_lookup(e, rs, post_table, mk_str(HANDLES[i]))
+            checks.append(('release -r removes the named handle', zimp(tgt[i], znot(f))))
     if cmd == 'release':
         checks.append(('release answers whether the handle was live', zand(zeq(rv.d, CONT), str_eq(outv(), merge(live, mk_str('true'), mk_str('false'))))))
         for i in range(3):
@@ -269,9 +279,11 @@ def replayer(v):
         elif kind == 'map':
             for k, x in content.items(): lines.append('map_put ${%s} "%s" %s' % (var, esc(k), ref(x)))
     a = list(v['args'])
-    harg = a[0]
+    harg = a[1] if v['cmd'] == 'release -r' else a[0]
     a0 = '${%s}' % names[harg] if harg in names else '"%s"' % esc(harg)
-    lines.append('r = %s %s %s' % (v['cmd'], a0, ' '.join(ref(x) for x in a[1:])))
+    if v['cmd'] == 'release -r':
+        h2 = a[1]; lines.append('r = release -r %s' % ('${%s}' % names[h2] if h2 in names else '"%s"' % esc(h2)))
+    else: lines.append('r = %s %s %s' % (v['cmd'], a0, ' '.join(ref(x) for x in a[1:])))
     lines.append('e = get_last_error')
     for h, var in names.items():
         kind = tab[h][0]
@@ -283,6 +295,10 @@ def replayer(v):
     if out.get('panic'): return (True, 'native panic')
     if not out.get('ok'): return (None, 'replay script failed: %r' % (out.get('error'),))
     vars_ = out['vars']
+    if v['cmd'] == 'release -r':
+        var = names.get(harg)
+        alive = var is not None and 'true' in (vars_.get('k_%s_a' % var), vars_.get('k_%s_m' % var), vars_.get('k_%s_s' % var))
+        return (alive, 'native: target still alive' if alive else 'native released the target and returned')
     # python reference for the result and for sizes / kinds
     cmd = v['cmd']; fam = cmd.split('_')[0]
     tkind = tab.get(harg, [None])[0]
